@@ -83,7 +83,7 @@ pub fn roundtrip_relation(
 
 fn roundtrip(ch: &mut Choices, case: &mut Case) -> Result<(), String> {
     let base_year = if ch.chance(85) { 2020 } else { ch.pick(&[1900, 9992, 2096]) };
-    let cfg = Cfg { max_rules: 4, base_year, dense: ch.chance(35), max_day_offset: 400, long_pct: 2, ..Cfg::default() };
+    let cfg = Cfg { max_rules: 4, base_year, dense: ch.chance(35), max_day_offset: 400, long_pct: 2, repeat_pct: 4, ..Cfg::default() };
     let g = gen_case(ch, &cfg)?;
     case.key = g.text.clone();
     label_expr(&g.ast, case);
@@ -109,6 +109,46 @@ fn roundtrip(ch: &mut Choices, case: &mut Case) -> Result<(), String> {
     Ok(())
 }
 
+/// Whatever the parser accepts must print to something it accepts again with the same meaning —
+/// also sentences outside the generator's grammar: valid sentences with one or two token-level
+/// mutations (a space inserted, a token duplicated, a digit changed ...) that still parse.
+fn accepted_mutants(ch: &mut Choices, case: &mut Case) -> Result<(), String> {
+    let base_year = 2020;
+    let relaxed = ch.chance(30);
+    let cfg = Cfg { max_rules: 3, base_year, dense: ch.chance(35), max_day_offset: 40, relaxed, ..Cfg::default() };
+    let (_, original) = crate::gen::expr::gen_expr(ch, &cfg);
+    // a sentence of the relaxed grammar is a candidate as it stands
+    let text = if relaxed && ch.chance(60) { original.clone() } else { crate::props::c04::mutate(&original, ch) };
+    if relaxed {
+        case.label("relaxed_grammar_sentence");
+    }
+    case.key = text.clone();
+    let holidays = crate::gen::ctx::gen_holidays(ch, base_year);
+    let Ok(Ok(ast)) = guard(|| opening_hours_syntax::parse(&text)) else {
+        case.label("mutant_rejected");
+        return Ok(());
+    };
+    let Ok(oh) = OpeningHours::parse(&text) else {
+        return Err(format!("`{text}`: accepted by opening_hours_syntax::parse, rejected by OpeningHours::parse"));
+    };
+    // huge offsets make evaluation walk far; they are C04's business
+    if text.len() > 400 || ast.rules.iter().any(|r| r.day_selector.monthday.iter().any(|m| matches!(m, opening_hours_syntax::rules::day::MonthdayRange::Date { start, end } if start.1.day_offset.abs() > 4000 || end.1.day_offset.abs() > 4000))) {
+        case.exclude("mutant-with-huge-offset");
+        return Ok(());
+    }
+    let oh = oh.with_context(Context::default().with_holidays(holidays.holidays.clone()));
+    label_expr(&ast, case);
+    let g = GenCase { text: text.clone(), denoted: ast.clone(), ast, oh, holidays, base_year };
+    let mut units = 0;
+    roundtrip_relation(ch, &g, &g.oh, &g.ast, &format!("`{text}`"), 6, &mut units)?;
+    let norm = guard(|| g.oh.normalize()).map_err(|p| format!("`{text}`: normalize panicked: {p}"))?;
+    let norm_tree = g.ast.clone().normalize();
+    roundtrip_relation(ch, &g, &norm, &norm_tree, &format!("the normal form of `{text}`"), 4, &mut units)?;
+    case.units = units;
+    case.nontrivial = text != original || relaxed;
+    Ok(())
+}
+
 fn roundtrip_text(text: &str, case: &mut Case) -> Result<(), String> {
     case.key = text.to_string();
     let ast = opening_hours_syntax::parse(text).map_err(|e| e.to_string())?;
@@ -127,7 +167,16 @@ fn roundtrip_text(text: &str, case: &mut Case) -> Result<(), String> {
 pub fn property() -> Property {
     Property {
         id: "C06",
-        subs: vec![SubCheck {
+        subs: vec![
+            SubCheck {
+                name: "accepted_mutants",
+                rule: "a generated sentence with one or two token-level mutations (character deleted, grammar token inserted, slice duplicated, slice replaced, digit changed, space inserted at a character-class boundary), or (30 %) a sentence of a relaxed grammar (space between year and month/date selectors, ambiguous gluings not avoided); when the parser still accepts it — whatever the generator's grammar says — the same print / reparse / evaluate relation must hold for it and for its normal form; non-trivial = the mutant differs from the sentence and is accepted",
+                f: accepted_mutants,
+                text_f: Some(roundtrip_text),
+                cases_quick: 60_000,
+                cases_thorough: 1_500_000,
+                max_choices: 420,
+            },SubCheck {
             name: "roundtrip",
             rule: "generated expression e (1-4 rules, full grammar incl. repeats, events with offsets, steps, nth, dated ranges, comments) and its normal form n: to_string() must parse, and the reparsed expression must give the same merged (kind, comment-fragment set) ranges as the original on 10 (resp. 6) expression-aware dates under generated PH/SH calendars; OpeningHours and expression Display agree; non-trivial = printed text differs from the input or the expression has >= 2 rules",
             f: roundtrip,
